@@ -11,10 +11,14 @@ import heapq
 import itertools
 import json
 import sys
-import z3
+import zz as z3
 from sym import *
 
 sys.setrecursionlimit(20000)
+
+
+import os
+TRACE = bool(os.environ.get('VERIF_TRACE'))
 
 
 class Unsupported(Exception):
@@ -613,9 +617,30 @@ class Exec:
             return FuncV('builtin:' + o['n'])
         raise Unsupported('operand %r' % o)
 
+    LAZY_INIT = ('unicode/utf8', 'strconv', 'regexp', 'strings', 'bytes', 'path', 'sort', 'errors', 'path/filepath')
+
     def ensure_global(self, st, name):
         key = 'G:' + name
         if key not in st.heap:
+            pkg = self.prog.globals.get(name, {}).get('pkg')
+            done = self.ctx.hooks.setdefault('inits_done', set())
+            if pkg in self.LAZY_INIT and pkg not in done and (pkg + '.init') in self.prog.funcs:
+                done.add(pkg)
+                ctx = self.ctx
+                saved = (ctx.obligations, ctx.terminals, ctx.effects, ctx.hooks.get('lenient'), ctx.depth)
+                ctx.obligations, ctx.terminals, ctx.effects = [], [], []
+                ctx.hooks['lenient'] = True
+                try:
+                    _, h2, _ = self.call_function(pkg + '.init', [], st.heap, True)
+                    st.heap = h2
+                except Unsupported as e:
+                    ctx.note('package initialiser of %s only partially executed: %s' % (pkg, str(e)[:200]))
+                finally:
+                    ctx.obligations, ctx.terminals, ctx.effects = saved[0], saved[1], saved[2]
+                    ctx.hooks['lenient'] = saved[3]
+                    ctx.depth = saved[4]
+                if key in st.heap:
+                    return
             init = self.ctx.globals_init.get(name)
             if init is not None:
                 st.heap[key] = init(self, st) if callable(init) else init
@@ -676,6 +701,8 @@ class Exec:
             raise Unsupported('call to unmodelled function %s' % fname)
         ctx.funcs_encoded.add(fname)
         ctx.stats['calls'] += 1
+        if TRACE:
+            print('  ' * ctx.depth + 'call ' + fname.rsplit('/', 1)[-1], file=sys.stderr, flush=True)
         ctx.depth += 1
         if ctx.depth > ctx.max_depth:
             raise Unsupported('call depth exceeded at %s' % fname)
